@@ -331,7 +331,10 @@ func (v *vrPoll) register(c *vrConn) error {
 
 // quiesce: wait until the loop has handled what there is to handle (no new batch for a while)
 func (v *vrPoll) quiesce(minBatches int64, until func() bool) bool {
-	dl := time.Now().Add(10 * time.Second)
+	dl := time.Now().Add(30 * time.Second)
+	if len(v.bad) > 0 {
+		dl = time.Now().Add(time.Second) // this round has failed already: do not wait long again
+	}
 	last, lastT := atomic.LoadInt64(&v.batches), time.Now()
 	for time.Now().Before(dl) {
 		time.Sleep(200 * time.Microsecond)
@@ -376,14 +379,14 @@ var vrScenarios = []vrScenario{
 
 // vrRun runs one round: a fresh poll, a few connections each following a scenario (interleaved), then
 // a writable round-trip, Trigger while blocked, optionally the growth rule, finally Close.
-func vrRun(seed int64, growth bool, ow, iw *bufio.Writer) {
+func vrRun(seed int64, growth bool, ow, iw *bufio.Writer) (ok bool) {
 	r := rand.New(rand.NewSource(seed))
 	head := fmt.Sprintf("real seed=%d growth=%v", seed, growth)
 	p, err := openDefaultPoll()
 	if err != nil {
 		fmt.Fprintln(ow, head)
 		fmt.Fprintln(iw, "harness-error open: "+err.Error())
-		return
+		return false
 	}
 	v := &vrPoll{p: p, rec: &vpRec{}, conns: map[*FDOperator]*vrConn{}, ow: ow, iw: iw}
 	v.rp = &vpRecPoll{p: p, rec: v.rec, ids: map[*FDOperator]int{}}
@@ -566,7 +569,7 @@ func vrRun(seed int64, growth bool, ow, iw *bufio.Writer) {
 		}
 		for _, c := range extra {
 			if c.acked != 2 {
-				v.fail(fmt.Sprintf("growth: conn%d got %d of 2 bytes", c.id, c.acked))
+				v.fail(fmt.Sprintf("growth: conn%d got %d of 2 bytes (batches n/size: %s)", c.id, c.acked, strings.Join(v.sizes, " ")))
 				break
 			}
 		}
@@ -591,7 +594,7 @@ func vrRun(seed int64, growth bool, ow, iw *bufio.Writer) {
 		if !vpFdClosed(wopFD) || !vpFdClosed(epFD) {
 			v.fail("Close: the poller's descriptors are still open after Wait returned")
 		}
-	case <-time.After(10 * time.Second):
+	case <-time.After(30 * time.Second):
 		v.fail("Close did not make Wait return")
 	}
 	for _, x := range runs {
@@ -605,11 +608,15 @@ func vrRun(seed int64, growth bool, ow, iw *bufio.Writer) {
 		fmt.Fprintln(iw, "FAIL:"+strings.Join(strings.Fields(strings.Join(v.bad, ";")), "_"))
 	}
 	iw.Flush()
+	return len(v.bad) == 0
 }
 
 func vpRealMain(seed int64, n int, tier string, ow, iw *bufio.Writer, progress *int64) {
-	for i := 0; i < n; i++ {
-		vrRun(seed*1000+int64(i), i%8 == 0, ow, iw)
+	failed := 0
+	for i := 0; i < n && failed < 2; i++ {
+		if !vrRun(seed*1000+int64(i), i%8 == 0, ow, iw) {
+			failed++ // two failing rounds are enough to report; a broken loop makes every further round slow
+		}
 		atomic.AddInt64(progress, 1)
 	}
 }
